@@ -204,20 +204,23 @@ class _InsideComps(ast.NodeTransformer):
         if isinstance(node, ast.Lambda):
             return node
         if isinstance(node, COMPS):
-            hit = self.inside and ast.dump(node) == self.kd
+            # an occurrence in the FIRST iterable of a comprehension belongs to the enclosing scope: it counts as an
+            # occurrence that does not depend on the loop variables of that comprehension
+            hit = ast.dump(node) == self.kd
             names = {n.id for n in ast.walk(node) if isinstance(n, ast.Name)}
-            dep = bool(names & self.bound)
+            dep = self.inside and bool(names & self.bound)
             new = self._comp(node)
         elif isinstance(node, ast.expr) and not isinstance(getattr(node, "ctx", None), (ast.Store, ast.Del)):
-            hit = self.inside and not isinstance(node, (ast.Starred, ast.Slice)) and ast.dump(node) == self.kd
+            hit = not isinstance(node, (ast.Starred, ast.Slice)) and ast.dump(node) == self.kd
             names = {n.id for n in ast.walk(node) if isinstance(n, ast.Name)}
-            dep = bool(names & self.bound)
+            dep = self.inside and bool(names & self.bound)
             new = self.generic_visit(node)
         else:
             return self.generic_visit(node)
         if hit:
             self.occurrences.append(dep)
-            self.shadowing |= names & self.bound
+            if dep:
+                self.shadowing |= names & self.bound
             return ast.copy_location(ast.Call(func=ast.Name(id="__rin", ctx=ast.Load()),
                                               args=[ast.Constant(value=dep), new], keywords=[]), node)
         return new
